@@ -167,6 +167,49 @@ var quietStates = [][]byte{
 	[]byte("sync.Cond.Wait"), []byte("sync.WaitGroup.Wait"), []byte("sleep"), []byte("synctest"),
 }
 
+// goroutine wait reasons that synctest does not treat as durable: while one
+// goroutine of the bubble waits like this the fake clock cannot advance, and
+// only the lock's holder can make progress.
+var mutexStates = [][]byte{
+	[]byte("sync.Mutex.Lock"), []byte("sync.RWMutex.RLock"), []byte("sync.RWMutex.Lock"), []byte("semacquire"),
+}
+
+// bubbleMutexWaiter reports whether a goroutine of the bubble is blocked on a
+// mutex. A clock advance must not be chosen then: time.Sleep in a bubble only
+// returns once every goroutine is durably blocked, and a mutex waiter is not.
+func bubbleMutexWaiter() bool {
+	n := runtime.Stack(stackBuf, true)
+	b := stackBuf[:n]
+	for len(b) > 0 {
+		i := bytes.Index(b, []byte("goroutine "))
+		if i < 0 {
+			break
+		}
+		b = b[i:]
+		eol := bytes.IndexByte(b, '\n')
+		if eol < 0 {
+			eol = len(b)
+		}
+		hdr := b[:eol]
+		b = b[eol:]
+		lb := bytes.IndexByte(hdr, '[')
+		rb := bytes.LastIndexByte(hdr, ']')
+		if lb < 0 || rb < lb {
+			continue
+		}
+		st := hdr[lb+1 : rb]
+		if !bytes.Contains(st, []byte("synctest bubble")) {
+			continue
+		}
+		for _, w := range mutexStates {
+			if bytes.HasPrefix(st, w) {
+				return true
+			}
+		}
+	}
+	return false
+}
+
 // bubbleQuiescent reports whether no goroutine of a synctest bubble other than
 // the caller is running, runnable or inside a system call.
 func bubbleQuiescent() bool {
@@ -236,7 +279,13 @@ func (s *Sched) Run() error {
 		if alive == 0 {
 			return nil
 		}
-		n := len(ready) + len(s.Advances)
+		advances := s.Advances
+		if len(advances) > 0 && bubbleMutexWaiter() {
+			// a task waits for a mutex another (parked) task holds: only running a
+			// task can make progress, the fake clock cannot move
+			advances = nil
+		}
+		n := len(ready) + len(advances)
 		if n == 0 {
 			s.Stalled = true
 			return fmt.Errorf("no task can run: %d alive, none parked, no clock advance offered", alive)
@@ -250,7 +299,7 @@ func (s *Sched) Run() error {
 			t.gate <- struct{}{}
 			last = t
 		} else {
-			d := s.Advances[k-len(ready)]
+			d := advances[k-len(ready)]
 			s.Trace = append(s.Trace, fmt.Sprintf("clock +%v", d))
 			time.Sleep(d)
 		}
